@@ -85,9 +85,6 @@ func (c *clientGenerator) Generate() error {
 
 	if c.GenOpts.IncludeModel {
 		for _, m := range app.Models {
-			if m.IsStream {
-				continue
-			}
 			mod := m
 			if err := c.GenOpts.renderDefinition(&mod); err != nil {
 				return err
